@@ -53,12 +53,6 @@ theorem splitOn_snoc (sep : Chr) (a b : Str) (h : b.contains sep = false) :
   have h' : sep ∉ b := by simpa using h
   rw [splitOn_eq, splitOn_eq, splitAux_snoc sep a b h']; rfl
 
-/-- `".".join(ns)` -/
-def joinDot : List Str → Str
-  | [] => []
-  | [n] => n
-  | n :: m :: t => n ++ dot :: joinDot (m :: t)
-
 theorem joinDot_snoc (ns : List Str) (n : Str) (hne : ns ≠ []) :
     joinDot (ns ++ [n]) = joinDot ns ++ dot :: n := by
   induction ns with
